@@ -76,6 +76,12 @@ def prepareForUpdate [DecidableEq S'] [DecidableEq A'] (sem : Sem A S A' S') (su
     else obj
   else obj
 
+/-- `DefaultRESTStrategy.Canonicalize` (inherited by the status strategy): the Go body is EMPTY — pinned by the
+    regenerated fact `KG.Gen.C20.hooks` — so it is the identity. It is the LAST step of `BeforeCreate` /
+    `BeforeUpdate`, after the strategy's `PrepareFor…` and the validation: anything it changed would be stored
+    without having been seen by the generation rule. -/
+def canonicalize (obj : Obj L A M S T) : Obj L A M S T := obj
+
 /-- `DefaultStatusRESTStrategy.PrepareForUpdate`. -/
 def statusPrepareForUpdate (sh : Shape) (obj old : Obj L A M S T) : Obj L A M S T :=
   -- if !hasStatus { return }
@@ -138,7 +144,8 @@ def beforeCreate (r : Reg) (mr : MetaRules L A M S T) (zero : T) (obj : Obj L A 
   -- ValidateObjectMetaAccessor: ValidateNonnegativeField(generation), then everything else
   if obj.generation < 0 then .error .invalid
   else if !mr.validCreate obj then .error .invalid
-  else .ok obj
+  -- strategy.Canonicalize(obj)
+  else .ok (canonicalize obj)
 
 /-- `rest.BeforeUpdate(strategy, ctx, obj, old)` for the endpoint's update strategy. -/
 def beforeUpdate [DecidableEq S'] [DecidableEq A'] (sem : Sem A S A' S') (r : Reg) (ep : Endpoint)
@@ -154,7 +161,8 @@ def beforeUpdate [DecidableEq S'] [DecidableEq A'] (sem : Sem A S A' S') (r : Re
   if obj.generation < 0 then .error .invalid
   else if obj.generation < old.generation then .error .invalid
   else if !mr.validUpdate obj old then .error .invalid
-  else .ok obj
+  -- strategy.Canonicalize(obj)
+  else .ok (canonicalize obj)
 
 /-! ### Histories: what a client can do to one object through the API -/
 
